@@ -298,8 +298,14 @@ def nullable_kinds(ctx: Ctx) -> None:
         f = prog.func(qual)
         equals_mode = f.name == 'equals'
         # equals: from the elementwise comparison of the two operands on, with skipna requested, no answer is returned before the missing masks were consulted
+        _exp = roles.Expander(f.node)
+
+        def _both_operands(v: ast.expr) -> bool:
+            # the comparison relates something of self with something of other, directly or through locals (values_self == values_other)
+            txts = _exp.expand(v)
+            return any('self' in t and 'other' in t for t in txts)
         cmp_line = min([a.lineno for a in ast.walk(f.node) if isinstance(a, ast.Assign) and isinstance(a.value, ast.Compare) and len(a.value.ops) == 1
-                        and isinstance(a.value.ops[0], ast.Eq) and {'self', 'other'} <= {x.id for x in ast.walk(a.value) if isinstance(x, ast.Name)}] or [10 ** 9])
+                        and isinstance(a.value.ops[0], ast.Eq) and _both_operands(a.value)] or [10 ** 9])
         if equals_mode:
             ctx.require(cmp_line < 10 ** 9, f'{qual} compares the operands elementwise')
         # a return inside an except handler answers for a comparison that could not be made at all
